@@ -215,7 +215,14 @@ class MyPyAstVisitor:
                     f"{node.fullname.rsplit('.', 1)[0]}.{superclass_name}"
                 )
                 if superclass_name in self.aliases and not defined_here:
-                    _, superclass_alias_qname = self._find_alias(superclass_name, resolved_qname=superclass_qname)
+                    # A base expression that the type checker resolved to a class is that class. Only its import can
+                    # say more (a shorter path); a class of the same name that some other module uses says nothing
+                    resolved_to_class = isinstance(getattr(superclass, "node", None), mp_nodes.TypeInfo)
+                    _, superclass_alias_qname = self._find_alias(
+                        superclass_name,
+                        resolved_qname=superclass_qname,
+                        imports_only=resolved_to_class,
+                    )
                     superclass_qname = superclass_alias_qname if superclass_alias_qname else superclass_qname
 
                 superclasses.append(superclass_qname)
@@ -1180,7 +1187,7 @@ class MyPyAstVisitor:
         logging.warning("Could not parse a type, added unknown type instead.")  # pragma: no cover
         return sds_types.UnknownType()  # pragma: no cover
 
-    def _find_alias(self, type_name: str, resolved_qname: str = "") -> tuple[str, str]:
+    def _find_alias(self, type_name: str, resolved_qname: str = "", imports_only: bool = False) -> tuple[str, str]:
         module = self.__declaration_stack[0]
 
         # At this point, the first item of the stack can only ever be a module
@@ -1191,6 +1198,9 @@ class MyPyAstVisitor:
         name, qname = self._search_alias_in_qualified_imports(module.qualified_imports, type_name, resolved_qname)
         if name and qname:
             return name, qname
+
+        if imports_only:
+            return "", ""
 
         if type_name in self.aliases:
             qnames: set = self.aliases[type_name]
